@@ -22,6 +22,7 @@ var c02EnumVals = []string{"z", "x", "y"} // declared order differs from the alp
 
 func c02Frames() []model.Frame {
 	nan := math.NaN()
+	nan2 := math.Float64frombits(0xFFF8000000000000)
 	ints := func(name string, v ...int) model.Col {
 		c := model.Col{Name: name, Kind: model.Int}
 		for _, x := range v {
@@ -67,7 +68,8 @@ func c02Frames() []model.Frame {
 	}
 	f0 := model.Frame{N: 5, Cols: []model.Col{
 		ints("i", 1, 2, 3, 2, 0), ints("i2", 2, 2, 1, 3, 0),
-		floats("f", 1.5, nan, 2, 3, nan), floats("f2", 2, 1, nan, 3, nan),
+		// nan2: the NaN arithmetic produces on amd64 (0/0), another bit pattern than math.NaN()
+		floats("f", 1.5, nan, 2, 3, nan2), floats("f2", 2, 1, nan2, 3, nan),
 		bools("b", true, false, true, false, true), bools("b2", true, true, false, false, true),
 		strs("s", model.String, "a", N, "", "b", N), strs("s2", model.String, "b", "a", N, "b", N),
 		strs("e", model.Enum, "x", N, "y", "z", N), strs("e2", model.Enum, "y", "x", N, "z", N),
@@ -575,7 +577,9 @@ func c02Run(ctx *core.Ctx) {
 	for fi := 0; fi < len(env.frames)-1; fi++ {
 		for _, l := range leaves {
 			variants := []model.Clause{model.LeafC(l), model.Not(model.LeafC(l)), model.And(model.LeafC(l)), model.Or(model.LeafC(l)),
-				model.Not(model.Not(model.LeafC(l))), model.Or(model.LeafC(l), model.LeafC(l)), model.And(model.NullClause(), model.LeafC(l))}
+				model.Not(model.Not(model.LeafC(l))), model.Or(model.LeafC(l), model.LeafC(l)), model.And(model.NullClause(), model.LeafC(l)),
+				// Null() = every row, also as a member of an Or
+				model.Or(model.NullClause(), model.LeafC(l)), model.Or(model.LeafC(l), model.NullClause()), model.Not(model.Or(model.NullClause(), model.LeafC(l)))}
 			for _, v := range variants {
 				for s := 0; s < model.NShapes; s++ {
 					if !ctx.Mine() {
@@ -668,7 +672,7 @@ func init() {
 		ID:    "C02",
 		Setup: func() { c02Env_() },
 		Level: "model_checking",
-		Rule: "case = (frame, index shape, clause tree). Tier A: every leaf of the ~600-leaf alphabet (all comparators x argument kinds x Inverse, per column type) alone and in 7 wrappers on 15 frames (five of 0-6 rows, ten of 8..129 rows around multiples of 8/16/64) x 8 shapes; " +
+		Rule: "case = (frame, index shape, clause tree). Tier A: every leaf of the ~600-leaf alphabet (all comparators x argument kinds x Inverse, per column type) alone and in 10 wrappers on 15 frames (five of 0-6 rows, ten of 8..129 rows around multiples of 8/16/64) x 8 shapes; " +
 			"A2: every ordered pair of leaves under And/Or/Or(Not); B: every And/Or/Not tree with <=K leaf slots and bounded depth, every assignment of core leaves to the slots. " +
 			"Non-trivial = the clause keeps some but not all rows according to the model; distinct by (frame, clause text).",
 		Assumptions: []string{
